@@ -338,6 +338,20 @@ func init() {
 		c, _ := w.pathState["udpClosed"].(int)
 		return vI(c), true
 	}
+	sxIntrinsics["RegisterConn"] = func(w *Worker, fr *frame, a []Value) (Value, bool) {
+		w.pathState["dialConn"] = a[0]
+		return nil, true
+	}
+	// net.Dial: the connection the harness registered, if any (the call is recorded either way)
+	prevDial := intrinsics["net.Dial"]
+	intrinsics["net.Dial"] = func(w *Worker, fr *frame, args []Value) (Value, bool) {
+		c, ok := w.pathState["dialConn"]
+		if !ok {
+			return prevDial(w, fr, args)
+		}
+		w.recordCall(fr, args)
+		return Tuple{c, Iface{}}, true
+	}
 	prevListen := intrinsics["net.Listen"]
 	intrinsics["net.Listen"] = func(w *Worker, fr *frame, args []Value) (Value, bool) {
 		l, ok := w.pathState["listener"]
